@@ -382,7 +382,8 @@ def run(tier, seed):
     for backend in ("sql", "kv"):
         run_web(s3, backend, combos)
     suites.append(s3)
-    return suites
+    from .. import extra
+    return list(suites) + [extra.suite_roles_concurrent(tier, seed)]
 
 
 def replay(payload):
